@@ -189,8 +189,17 @@ def oracle_schedules_bd(ctx):
     for k in range(ctx.n(20, 300)):
         herm = rng.random() < 0.65
         case = gen.random_case(rng, hermitian=herm, fmt=rng.choice(["sympy", "dense"]), max_blocks=2, max_size=2, max_params=2, N=2)
+        if k == 0:
+            # always one THREE-block problem with the one-argument solver: the wrapped solver refuses every block
+            # other than (0,1) with a ValueError, which has to be the same whatever the history
+            for _ in range(200):
+                case = gen.random_case(rng, hermitian=True, fmt="dense", max_blocks=3, max_size=2, max_params=1, N=2,
+                                       allow_fully=False, allow_mask=False)
+                if max(case["sub"]) == 2:
+                    break
+            herm = True
         nb = max(case["sub"]) + 1
-        case["solver1"] = bool(herm and nb == 2 and case["fmt"] == "dense" and case["fully"] is None and rng.random() < 0.5)
+        case["solver1"] = bool(herm and case["fmt"] == "dense" and case["fully"] is None and ((nb == 2 and rng.random() < 0.5) or (k == 0 and nb == 3)))
         npar = case["nparam"]
         orders = KS.all_orders(npar, 2)
         base = [(rng.choice(OUTS), (rng.randrange(nb), rng.randrange(nb)) + tuple(rng.choice(orders))) for _ in range(3)]
@@ -406,12 +415,12 @@ def oracle_user_products(ctx):
     evaluations = nontrivial = 0
     failures, samples = [], []
     names = OUTS + ["UdU", "UdU", "UdU_plain", "UHU", "UHU_plain"]
-    for k in range(ctx.n(18, 200)):
-        case = gen.random_case(rng, hermitian=True, fmt=rng.choice(["dense", "dense", "sympy"]), max_blocks=2, max_size=2,
+    for k in range(ctx.n(14, 200)):
+        case = gen.random_case(rng, hermitian=True, fmt=rng.choice(["dense", "dense", "dense", "sympy"]), max_blocks=2, max_size=2,
                                max_params=2, N=2, allow_fully=False, allow_mask=False)
         nb = max(case["sub"]) + 1
         case["solver1"] = bool(nb == 2 and case["fmt"] == "dense" and rng.random() < 0.4)
-        orders = KS.all_orders(case["nparam"], 2 if case["nparam"] == 2 else 3)
+        orders = KS.all_orders(case["nparam"], 2 if (case["nparam"] == 2 or case["fmt"] == "sympy") else 3)
         sched = []
         for _ in range(6):
             name = rng.choice(names)
